@@ -41,7 +41,7 @@ IDENT_RULES = {
     "sqlite": (True, False, True),
     "postgresql": (True, False, True),
     "mysql": (True, False, True),
-    "bigquery": (False, True, False),
+    "bigquery": (False, True, True),
     "spark": (True, False, True),
 }
 _ESC = {"n": "\n", "r": "\r", "t": "\t", "0": "\0", "b": "\b", "Z": "\x1a", BS: BS, "'": "'", '"': '"', "`": "`"}
@@ -227,6 +227,52 @@ def annotation_one_line(a: str) -> bool:
     """
     c = _clean_annotation(a)
     return ("\n" not in c) and ("\r" not in c) and ("%" not in c)
+
+
+# ---------------------------------------------------------------------------------- structured long inputs: many quotes / backslashes
+def repeated_quotes_sqlite(n: int, m: int) -> bool:
+    """
+    pre: 0 <= n <= 12 and 0 <= m <= 3
+    post: _ == True
+    """
+    s = "a" * m + "'" * n + "b" * m
+    return lex_string("sqlite", M["sqlite"].quote_string(s)) == s
+
+
+def repeated_quotes_postgresql(n: int, m: int) -> bool:
+    """
+    pre: 0 <= n <= 12 and 0 <= m <= 3
+    post: _ == True
+    """
+    s = "x" * m + "'" * n
+    return lex_string("postgresql", M["postgresql"].quote_string(s)) == s
+
+
+def repeated_quotes_mysql(n: int, k: int) -> bool:
+    """
+    pre: 0 <= n <= 12 and 0 <= k <= 6
+    post: _ == True
+    """
+    s = "'" * n + BS * k + "'"
+    return lex_string("mysql", M["mysql"].quote_string(s)) == s
+
+
+def repeated_quotes_bigquery(n: int, k: int) -> bool:
+    """
+    pre: 0 <= n <= 12 and 0 <= k <= 6
+    post: _ == True
+    """
+    s = '"' * n + BS * k
+    return lex_string("bigquery", M["bigquery"].quote_string(s)) == s
+
+
+def repeated_quotes_spark(n: int, k: int) -> bool:
+    """
+    pre: 0 <= n <= 12 and 0 <= k <= 6
+    post: _ == True
+    """
+    s = BS * k + '"' * n + "z"
+    return lex_string("spark", M["spark"].quote_string(s)) == s
 
 
 # ---------------------------------------------------------------------------------- vacuity twin
